@@ -316,7 +316,7 @@ func checkThrottle(r *verifsim.Run, c bCfg, ups []upCall) {
 				nX++
 				if baseOpen {
 					baseOpen = false
-				} else if u.op != 'X' {
+				} else {
 					r.Violate("C06", "C06.pairing", "stop-while-closed", "upstream call %d (%c): base StopRecording with no base file open", i, u.op)
 					if r.Failed() {
 						return
